@@ -188,6 +188,29 @@ func TestCheck(t *testing.T) {
 					}
 				}
 				shape := rng.Intn(4) // 0 production strip, 1 value left in place, 2 justification unstripped, 3 both
+				// completion mode: 0 = production completion (value + inferJustificationVoteValue);
+				// 1 = the chain is attached and the justification is left as it came over the wire
+				// (only meaningful when the wire justification still carries a value): the validator's
+				// full stage must itself refuse a justification for a different value
+				mode := 0
+				var relabel *gpbft.ECChain
+				if (shape == 2 || shape == 3) && m.Justification != nil && rng.Intn(2) == 0 {
+					mode = 1
+					switch rng.Intn(4) {
+					case 0: // the carried vote value where the rules prescribe bottom (or vice versa)
+						relabel = orig
+						if m.Justification.Vote.Value != nil && !m.Justification.Vote.Value.IsZero() {
+							relabel = &gpbft.ECChain{}
+						}
+					case 1:
+						relabel = vals[rng.Intn(len(vals))]
+					}
+				}
+				infer := func(pm *gpbft.PartialGMessage) {
+					if mode == 0 {
+						pmsg.VerifInferJustificationVoteValue(pm)
+					}
+				}
 				build := func() *gpbft.PartialGMessage {
 					cm := vmsg.Clone(m)
 					pm, _ := nilPMM.ToPartialGMessage(cm)
@@ -200,6 +223,9 @@ func TestCheck(t *testing.T) {
 					}
 					if (shape == 2 || shape == 3) && m.Justification != nil {
 						j := *vmsg.Clone(m).Justification
+						if relabel != nil {
+							j.Vote.Value = relabel
+						}
 						pm.Justification = &j
 					}
 					return pm
@@ -210,12 +236,12 @@ func TestCheck(t *testing.T) {
 					if err != nil {
 						// completed message as it would have been
 						pm.Vote.Value = C
-						pmsg.VerifInferJustificationVoteValue(pm)
+						infer(pm)
 						return "stage1-" + class(err), pm.GMessage
 					}
 					ppm := pvm.PartialMessage()
 					ppm.Vote.Value = C
-					pmsg.VerifInferJustificationVoteValue(ppm)
+					infer(ppm)
 					completed := vmsg.Clone(ppm.GMessage)
 					_, err = p.FullyValidateMessage(ctx, pvm)
 					if err != nil {
@@ -234,7 +260,7 @@ func TestCheck(t *testing.T) {
 					// need the completed message first: build it without validating
 					pm := build()
 					pm.Vote.Value = C
-					pmsg.VerifInferJustificationVoteValue(pm)
+					infer(pm)
 					_, err := shared.P.ValidateMessage(ctx, vmsg.Clone(pm.GMessage))
 					one = class(err)
 					two, completed = twoStage(shared.P)
@@ -243,7 +269,7 @@ func TestCheck(t *testing.T) {
 				oneFresh := class(ferr)
 				run.Eval(1)
 				acc2 := two == "accept"
-				desc := fmt.Sprintf("%s|%s|key%d|chain%d|shape%d|order%d|%s|%s", it.desc, m.Vote.Phase, keyKind, chainKind, shape, order, two, one)
+				desc := fmt.Sprintf("%s|%s|key%d|chain%d|shape%d|mode%d%v|order%d|%s|%s", it.desc, m.Vote.Phase, keyKind, chainKind, shape, mode, relabel != nil, order, two, one)
 				run.Distinct(desc)
 				mu.Lock()
 				run.Count("two_stage_"+two, 1)
@@ -251,7 +277,7 @@ func TestCheck(t *testing.T) {
 				mu.Unlock()
 				wit := func() map[string]any {
 					return map[string]any{"case": i, "progress": fmt.Sprint(cur), "corruption": it.desc, "phase": m.Vote.Phase.String(), "round": m.Vote.Round, "instance": m.Vote.Instance,
-						"key_kind": keyKind, "chain_kind": chainKind, "shape": shape, "order": order, "two_stage": two, "one_shot_same_participant": one, "one_shot_fresh": oneFresh}
+						"key_kind": keyKind, "chain_kind": chainKind, "shape": shape, "completion_mode": mode, "justification_relabelled": relabel != nil, "order": order, "two_stage": two, "one_shot_same_participant": one, "one_shot_fresh": oneFresh}
 				}
 				if two == "stage1-panic" || two == "stage2-panic" || two == "stage1-other" || two == "stage2-other" {
 					run.Violation("C13 two-stage validation returned a panic/unknown error", wit())
